@@ -229,8 +229,16 @@ VRdp(r) ==
   ELSE IF Len(r.dp) < 5000 /\ SmallCoords(r.case.pts) /\ TraceWhy(r, T2n, T2d) # "ok" THEN Bad("rdp|trace|" \o TraceWhy(r, T2n, T2d), 3)
   ELSE OK
 
+\* a history: lines simplified one after the other by one process; each result is judged as if it were the only call
+VRdpSeq(r) ==
+  LET one(k) == VRdp([case |-> r.case.seq[k]] @@ r.seq[k])
+      badk == {k \in DOMAIN r.seq : ~one(k).ok} IN
+  IF Len(r.seq) # Len(r.case.seq) THEN Bad("rdp|history|short", 0)
+  ELSE IF badk = {} THEN OK
+  ELSE Bad(one(FirstOf(badk)).sig \o "|after-earlier-calls", FirstOf(badk))
 Verdict(r) ==
-  IF r.ev # "ok" /\ MODE # "rdp" THEN Bad(MODE \o "|" \o r.ev, 0)
+  IF MODE = "rdpseq" THEN (IF r.ev # "ok" THEN Bad("rdp|history|" \o r.ev, 0) ELSE VRdpSeq(r))
+  ELSE IF r.ev # "ok" /\ MODE # "rdp" THEN Bad(MODE \o "|" \o r.ev, 0)
   ELSE CASE MODE = "orient" -> VOrient(r)
          [] MODE = "locate" -> VLocate(r)
          [] MODE = "segseg" -> VSegSeg(r)
